@@ -237,6 +237,11 @@ func confirm(c *sched.Case, o *outcome) *outcome {
 		return o
 	}
 	o2 := executeOnce(c)
+	for _, k := range o.counts {
+		if strings.HasPrefix(k, "killed-at-limit") {
+			o2.counts = append(o2.counts, "first-run-"+k)
+		}
+	}
 	if len(o2.fails) == 0 {
 		o2.counts = append(o2.counts, "not-reproduced-on-rerun:"+o.fails[0][0])
 		return o2
@@ -253,6 +258,12 @@ func executeOnce(c *sched.Case) *outcome {
 		return &outcome{line: "run " + c.Encode(), out: "harness-error " + err.Error()}
 	}
 	o := judge(c, res.Events, res.RC, res.Wall, traceLine(c, res.Events, res.RC))
+	if res.RC == 124 {
+		o.counts = append(o.counts, fmt.Sprintf("killed-at-limit-after-%ds-without-events", int(res.Idle.Seconds())/10*10))
+		if len(o.fails) > 0 {
+			o.fails[0][2] += fmt.Sprintf(" | last event %.0f s before the kill", res.Idle.Seconds())
+		}
+	}
 	if len(o.fails) > 0 && res.Output != "" {
 		n := 6
 		if res.RC == 124 {
@@ -370,7 +381,7 @@ func main() {
 	}
 	kinds := []string{"none", "exit", "exit", "exit", "undef", "bad", "miss", "cycle"}
 	var cases []*sched.Case
-	for i := 0; i < r.N(40, 400); i++ {
+	for i := 0; i < r.N(40, 200); i++ {
 		cases = append(cases, genCase(r.Rng, r, kinds[i%len(kinds)]))
 	}
 	outs := make([]*outcome, len(cases))
